@@ -190,6 +190,24 @@ def finishCall (c : TCfg) (t : Tbl) (k : Nat) (correct isRefresh : Bool) (o : Lo
       (store t k n, evs)
     else (t, [])
 
+/-- SetExpiresAfter: only for a visible entry and a positive duration; setExpiresAfterRead stores unless the duration is the
+    current one -/
+def setExpiresAfter (c : TCfg) (t : Tbl) (k : Nat) (d : Int) (now : Int) : Tbl :=
+  if !c.withExp || decide (d ≤ 0) then t else
+  match lookup t k with
+  | none => t
+  | some n =>
+    if hasExpired n now then t
+    else if d != durationTo n.exp now then store t k { n with exp := deadlineAfter now d } else t
+
+/-- SetRefreshableAfter: for the entry physically present (its expiry is not looked at) and a positive duration -/
+def setRefreshableAfter (c : TCfg) (t : Tbl) (k : Nat) (d : Int) (now : Int) : Tbl :=
+  if !c.withRef || decide (d ≤ 0) then t else
+  match lookup t k with
+  | none => t
+  | some n =>
+    if d > 0 && durationTo n.ref now != d then store t k { n with ref := deadlineAfter now d } else t
+
 /-- GetIfPresent: getNode (miss for absent or expired) then the read's deadline -/
 def getIfPresent (c : TCfg) (t : Tbl) (k : Nat) (now : Int) : Tbl × Out :=
   match lookup t k with
